@@ -32,6 +32,8 @@ type C09Case struct {
 	AfterLogout bool `json:"after_logout,omitempty"`
 	// LocalLogout: the application has called Logout(); the peer never answers and never says anything again
 	LocalLogout bool `json:"local_logout,omitempty"`
+	// RefusedRelogon (with AfterLogout, acceptor): a refused second Logon follows the logout exchange
+	RefusedRelogon bool `json:"refused_relogon,omitempty"`
 }
 
 func tolT(n int) time.Duration {
@@ -96,6 +98,12 @@ func genC09(t *rapid.T) *C09Case {
 		c.AfterLogout = true
 		adv(rapid.Int64Range(1, N).Draw(t, "logoutDt"))
 		add(rig.Step{Op: "in", In: g.logout()})
+		if cfg.Role == "acceptor" && rapid.IntRange(0, 2).Draw(t, "refusedRelogon") == 0 {
+			// ... and tries to log on again with a Logon that is refused; then it says nothing more
+			c.RefusedRelogon = true
+			adv(rapid.Int64Range(1, N).Draw(t, "refusedRelogonDt"))
+			add(rig.Step{Op: "in", In: g.logon(LogonSpec{HB: rapid.SampledFrom([]string{"above", "text"}).Draw(t, "refusedHB"), Method: "allowed", Creds: "good"})})
+		}
 	}
 	if !c.Relogon && !c.AfterLogout && rapid.IntRange(0, 7).Draw(t, "localLogout") == 0 {
 		c.LocalLogout = true
@@ -327,6 +335,9 @@ func checkC09(c *C09Case, rec *evid.Rec) (vs []pbt.Violation) {
 	}
 	if c.LocalLogout {
 		rec.Hist("silence-after-an-unanswered-local-logout")
+	}
+	if c.RefusedRelogon {
+		rec.Hist("silence-after-a-refused-second-logon")
 	}
 	if c.RefuseProbes && nProbes > 0 {
 		rec.Hist("probe-refused-by-application-handler")
